@@ -62,6 +62,7 @@ instance : PPOps Float where
   log10 := Float.log10
   exp := Float.exp
   sqrt := Float.sqrt
+  cbrt := Float.cbrt
   pi := Float.ofBits 0x400921FB54442D18
   posInf := fInf
   negInf := fNegInf
